@@ -57,6 +57,11 @@ def cases(tier, seed):
     # units put a breakpoint of the weighted quantile (k/200) between the fitted quantiles 0.008 and 0.012
     for alphas in _sublists([0.976, 0.984]):
         out.append({"pm": "gaussian", "office": "G", "election": "equal286", "estimands": ["turnout"], "alphas": alphas, "aggregates": ["postal_code", "county_fips", "unit"], "seed": seed})
+    # two states, one of them small: its gaussian model falls back to the model over all units, at every level
+    for est in _sublists(["turnout", "dem"]):
+        for alphas in _sublists([0.7, 0.9]):
+            for lv in (["postal_code"], ["postal_code", "county_fips"], ["county_fips", "postal_code"]):
+                out.append({"pm": "gaussian", "office": "G", "election": "smallstate", "estimands": est, "alphas": alphas, "aggregates": lv + ["unit"], "seed": seed})
     # the historical client: every ordered sub-list of estimands, aggregate sub-lists
     for pm in ("nonparametric", "gaussian"):
         for est in _sublists(["turnout", "dem"]):
@@ -91,6 +96,13 @@ def _election_equal(case):
 def _election(case):
     if case.get("election") == "equal286":
         return _election_equal(case)
+    if case.get("election") == "smallstate":
+        units = E.background(case["seed"], "G", 40, "AA2", partial=3)
+        for k, st in enumerate(["reporting", "reporting", "reporting", "nonrep_partial", "nonrep0"]):
+            u = E.make_probe(case["seed"], 20 + k, st, "newstate")
+            u["id"] = f"BBc0_s{k}"
+            units.append(u)
+        return units
     office = case["office"]
     pm = case["pm"]
     w = "twoparty" if pm == "bootstrap" else "turnout"
